@@ -1,6 +1,8 @@
 import Firebolt.Model.MainLoop
 import Firebolt.Generated.Skeleton
 import Firebolt.Expected.Skeleton
+import Firebolt.Generated.Source
+import Firebolt.Expected.Source
 /-!
 # C17 — Shutdown is bounded by the configured timeout even if nodes never finish
 
@@ -71,5 +73,14 @@ theorem skeleton_waitTimeout : Generated.waitTimeout = Expected.waitTimeout := b
 theorem skeleton_execute : Generated.execute = Expected.execute := by rfl
 theorem skeleton_stopWorkers : Generated.stopWorkers = Expected.stopWorkers := by rfl
 theorem skeleton_runNode : Generated.runNode = Expected.runNode := by rfl
+
+
+/-! ### functions the model's assumptions rest on (construction, wiring, surrounding calls) are unchanged -/
+theorem source_exSendMessage : GeneratedSrc.exSendMessage = ExpectedSrc.exSendMessage := by rfl
+theorem source_msgInitKafkaSender : GeneratedSrc.msgInitKafkaSender = ExpectedSrc.msgInitKafkaSender := by rfl
+theorem source_msgShutdownKafkaSender : GeneratedSrc.msgShutdownKafkaSender = ExpectedSrc.msgShutdownKafkaSender := by rfl
+theorem source_msgGetSender : GeneratedSrc.msgGetSender = ExpectedSrc.msgGetSender := by rfl
+theorem source_exSendMessageFn : GeneratedSrc.exSendMessageFn = ExpectedSrc.exSendMessageFn := by rfl
+theorem source_exAckMessageFn : GeneratedSrc.exAckMessageFn = ExpectedSrc.exAckMessageFn := by rfl
 
 end Firebolt.C17
